@@ -518,3 +518,217 @@ Proof.
   - intros E. rewrite Sz by assumption. apply opt_len_bytes.
   - intros E. rewrite Sf by assumption. apply opt_len_bytes.
 Qed.
+
+(* ================= cross-cutting: C09 / C10 / C11 for the frame decoders ================= *)
+
+Lemma ok_or_documented_bind {A B} (r : res A) (f : A -> res B) :
+  ok_or_documented r -> (forall a, r = Ok a -> ok_or_documented (f a)) -> ok_or_documented (bind r f).
+Proof. destruct r as [a|e]; cbn [bind]; intros H K; [apply K; reflexivity|exact H]. Qed.
+
+Lemma py_get_ok (d : bytes) i : 0 <= i < len d -> exists b, py_get d i = Ok b.
+Proof. intros H. destruct (py_get_in_range d i H) as (b & E & _). eauto. Qed.
+
+(* TransferFrameDataField.unpack: every input, every exact_len, every frame type *)
+Theorem tfdf_unpack_total raw tr e ft : ok_or_documented (tfdf_unpack raw tr e ft).
+Proof.
+  unfold tfdf_unpack. destruct (len raw <? 1) eqn:L1; [reflexivity|].
+  destruct (py_get_ok raw 0 ltac:(lia)) as (b0 & ->). cbn [bind].
+  destruct (match ft with Some f => negb (verify_frame_type _ f) | None => false end); [reflexivity|].
+  destruct (should_have_fhp _ tr ft).
+  - destruct (_ || _) eqn:G; [reflexivity|].
+    destruct (py_get_ok raw 1 ltac:(lia)) as (b1 & ->).
+    destruct (py_get_ok raw 2 ltac:(lia)) as (b2 & ->). cbn [bind]. exact I.
+  - cbn [bind]. exact I.
+Qed.
+
+Lemma get_tfdf_len_total ft h n p :
+  (forall b, h = HTrunc b -> ft = FtVariable /\ p_fixed p = false) ->
+  ok_or_documented (get_tfdf_len ft h n p).
+Proof.
+  intros Hh. unfold get_tfdf_len. destruct ft; destruct h as [b|ph].
+  - destruct (Hh b eq_refl) as (? & _). discriminate.
+  - destruct (_ <? _); [reflexivity|exact I].
+  - destruct (Hh b eq_refl) as (_ & ->). exact I.
+  - exact I.
+Qed.
+
+Lemma frame_unpack_body_total raw ft p h :
+  (forall b, h = HTrunc b -> ft = FtVariable /\ p_fixed p = false) ->
+  ok_or_documented (frame_unpack_body raw ft p h).
+Proof.
+  intros Hh. unfold frame_unpack_body.
+  apply ok_or_documented_bind.
+  { destruct ft; destruct h as [b|ph]; try exact I.
+    - destruct (Hh b eq_refl) as (? & _). discriminate.
+    - destruct (negb _); [reflexivity|exact I]. }
+  intros _ _. apply ok_or_documented_bind.
+  { destruct h as [b|ph]; [|exact I]. destruct (Hh b eq_refl) as (_ & ->). exact I. }
+  intros efl _. destruct (_ <? efl); [reflexivity|].
+  apply ok_or_documented_bind; [apply get_tfdf_len_total; assumption|].
+  intros e _. destruct (_ || _); [reflexivity|].
+  apply ok_or_documented_bind.
+  { destruct (iz_present p); [|exact I]. destruct (_ >? _); [reflexivity|exact I]. }
+  intros [iz cur] _. apply ok_or_documented_bind; [apply tfdf_unpack_total|].
+  intros t _. destruct h as [b|ph]; [exact I|]. destruct (negb _); exact I.
+Qed.
+
+(* TransferFrame.unpack: every octet string, both frame types, every managed-parameter
+   object (either class, any integer sizes) fails only with documented errors *)
+Theorem frame_unpack_total raw ft p : wf_bytes raw -> ok_or_documented (frame_unpack raw ft p).
+Proof.
+  intros W. rewrite frame_unpack_unfold. destruct (len raw <? 4) eqn:L4; [reflexivity|].
+  apply ok_or_documented_bind.
+  { destruct ft; [|exact I]. destruct (negb _); [reflexivity|]. destruct (_ <? p_len p); [reflexivity|exact I]. }
+  intros _ _. apply ok_or_documented_bind; [apply determine_header_type_total; assumption|].
+  intros ht _. apply ok_or_documented_bind.
+  { destruct (ht =? HT_TRUNCATED).
+    - destruct ft; [reflexivity|]. destruct (p_fixed p); [reflexivity|].
+      apply ok_or_documented_bind; [apply thdr_unpack_total; assumption|]. intros; exact I.
+    - apply ok_or_documented_bind; [apply phdr_unpack_total; assumption|]. intros; exact I. }
+  intros h Eh. apply frame_unpack_body_total.
+  intros b ->. destruct (ht =? HT_TRUNCATED).
+  - destruct ft; [discriminate|]. destruct (p_fixed p); [discriminate|]. split; reflexivity.
+  - destruct (phdr_unpack raw USLP_VERSION_NUMBER); cbn [bind] in Eh; discriminate.
+Qed.
+
+(* C09: octets behind the frame are irrelevant *)
+Theorem frame_suffix_irrelevant f p s : frame_consistent f -> frame_len_set f -> props_match f p ->
+  frame_unpack (frame_layout (hdr_layout (hdr f)) f ++ s) (ftype_of_rule (rules (ftfdf f))) p =
+  frame_unpack (frame_layout (hdr_layout (hdr f)) f) (ftype_of_rule (rules (ftfdf f))) p.
+Proof.
+  intros Hc Hs Hm. rewrite frame_unpack_pack by assumption.
+  rewrite <- (app_nil_r (frame_layout (hdr_layout (hdr f)) f)) at 1.
+  rewrite frame_unpack_pack by assumption. reflexivity.
+Qed.
+
+(* ================= mismatching managed parameters ================= *)
+
+(* too short for any header *)
+Theorem frame_unpack_too_short raw ft p : len raw < 4 -> frame_unpack raw ft p = Err EInvalidLen.
+Proof. intros H. unfold frame_unpack. destruct (len raw <? 4) eqn:E; [reflexivity|lia]. Qed.
+
+(* FIXED with the wrong class of managed parameters *)
+Theorem frame_unpack_fixed_wrong_class raw p : 4 <= len raw -> p_fixed p = false ->
+  frame_unpack raw FtFixed p = Err EValue.
+Proof.
+  intros H F. unfold frame_unpack. destruct (len raw <? 4) eqn:E; [lia|]. rewrite F. reflexivity.
+Qed.
+
+(* fewer octets than the fixed length *)
+Theorem frame_unpack_fixed_short raw p : 4 <= len raw -> p_fixed p = true -> len raw < p_len p ->
+  frame_unpack raw FtFixed p = Err EInvalidLen.
+Proof.
+  intros H F L. unfold frame_unpack. destruct (len raw <? 4) eqn:E; [lia|]. rewrite F. cbn [negb].
+  destruct (len raw <? p_len p) eqn:E2; [reflexivity|lia].
+Qed.
+
+(* truncated frame in fixed mode *)
+Theorem frame_unpack_truncated_fixed b x p : base_valid b -> p_fixed p = true ->
+  p_len p <= len (thdr_layout b ++ x) ->
+  frame_unpack (thdr_layout b ++ x) FtFixed p = Err ETruncatedNotAllowed.
+Proof.
+  intros Hb F L. rewrite frame_unpack_unfold.
+  destruct (len _ <? 4) eqn:E.
+  { rewrite len_app in E. change (len (thdr_layout b)) with 4 in E. pose proof (len_nonneg x). lia. }
+  rewrite F. cbn [negb]. destruct (_ <? p_len p) eqn:E2; [lia|]. cbn [bind].
+  pose proof (determine_hdr_layout (HTrunc b) x Hb) as D. cbn [hdr_layout hdr_truncated] in D. rewrite D. reflexivity.
+Qed.
+
+(* a packed frame whose frame-length field disagrees with the fixed length *)
+Theorem frame_unpack_fixed_len_mismatch ph x p : phdr_valid ph -> p_fixed p = true ->
+  p_len p <= len (phdr_layout ph ++ x) -> frame_len ph + 1 <> p_len p ->
+  frame_unpack (phdr_layout ph ++ x) FtFixed p = Err EInvalidLen.
+Proof.
+  intros Hv F L N. rewrite frame_unpack_unfold.
+  assert (7 <= len (phdr_layout ph)).
+  { rewrite phdr_layout_length; unfold phdr_len; destruct Hv as (_ & _ & _ & _ & _ & (? & _)); lia. }
+  destruct (len _ <? 4) eqn:E.
+  { rewrite len_app in E. pose proof (len_nonneg x). lia. }
+  rewrite F. cbn [negb]. destruct (_ <? p_len p) eqn:E2; [lia|]. cbn [bind].
+  pose proof (determine_hdr_layout (HPrim ph) x Hv) as D. cbn [hdr_layout hdr_truncated] in D. rewrite D. cbn [bind].
+  change (HT_NON_TRUNCATED =? HT_TRUNCATED) with false. cbv iota.
+  rewrite phdr_unpack_pack by assumption. cbn [bind]. unfold frame_unpack_body.
+  cbn [phdr_norm frame_len]. destruct (_ =? _) eqn:E3; [lia|]. reflexivity.
+Qed.
+
+(* truncated frame with FixedFrameProperties in variable mode: ValueError (was AttributeError) *)
+Theorem frame_unpack_truncated_fixed_props b x p : base_valid b -> p_fixed p = true ->
+  frame_unpack (thdr_layout b ++ x) FtVariable p = Err EValue.
+Proof.
+  intros Hb F. rewrite frame_unpack_unfold.
+  destruct (len _ <? 4) eqn:E.
+  { rewrite len_app in E. change (len (thdr_layout b)) with 4 in E. pose proof (len_nonneg x). lia. }
+  cbn [bind]. pose proof (determine_hdr_layout (HTrunc b) x Hb) as D. cbn [hdr_layout hdr_truncated] in D. rewrite D. cbn [bind].
+  change (HT_TRUNCATED =? HT_TRUNCATED) with true. cbv iota. rewrite F. reflexivity.
+Qed.
+
+(* construction rule of the other family than the frame type *)
+Theorem tfdf_unpack_rule_mismatch r i fh dz tail tr e ft : 0 <= r <= 7 -> 0 <= i <= 31 ->
+  ft <> ftype_of_rule r ->
+  tfdf_unpack (tfdf_layout r i fh dz ++ tail) tr e (Some ft) = Err EInvalidConstrRules.
+Proof.
+  intros Hr Hi N. unfold tfdf_unpack, tfdf_layout. cbn [app].
+  destruct (len _ <? 1) eqn:L1.
+  { rewrite len_cons in L1. pose proof (len_nonneg ((match fh with Some v => be_encode 2 v | None => [] end ++ dz) ++ tail)). lia. }
+  rewrite py_get_cons_0. cbn [bind].
+  destruct (byte_facts (r * 32 + i) ltac:(lia)) as (_ & _ & _ & _ & B4 & _).
+  rewrite B4. replace ((r * 32 + i) / 32) with r by lia.
+  assert (V : verify_frame_type r ft = false).
+  { rule_cases r H; destruct ft; try reflexivity; exfalso; apply N; reflexivity. }
+  rewrite V. reflexivity.
+Qed.
+
+(* a data field too short for the pointer the rule demands (was IndexError / over-read) *)
+Theorem tfdf_unpack_pointer_cut raw e r : 1 <= len raw -> py_get raw 0 = Ok r ->
+  cnstr_rules_for_fp (Z.land (Z.shiftr r 5) 7) = true -> len raw < 3 \/ e < 3 ->
+  tfdf_unpack raw false e (Some FtFixed) = Err EInvalidLen.
+Proof.
+  intros L G F C. unfold tfdf_unpack. destruct (len raw <? 1) eqn:L1; [lia|].
+  rewrite G. cbn [bind verify_frame_type should_have_fhp negb]. rewrite F. cbn [negb andb].
+  destruct (_ || _) eqn:E; [reflexivity|lia].
+Qed.
+
+(* ================= C11: tfdz setter / set_frame_len_in_header histories ================= *)
+
+Definition tsize_fresh (f : frame) : Prop :=
+  tsize (ftfdf f) = tfdf_header_len (fhp (ftfdf f)) + len (tfdz (ftfdf f)).
+
+Lemma frame_apply_fresh f o : tsize_fresh f -> tsize_fresh (frame_apply f o).
+Proof.
+  unfold tsize_fresh. destruct o; cbn [frame_apply]; try (intros; assumption).
+  - intros _. reflexivity.
+  - destruct f as [[b|ph] t iz oc fe]; intros H; exact H.
+Qed.
+
+(* after any sequence of setter calls the cached sizes are up to date, hence (for a frame the
+   standard defines) len() = size of pack(); observers do not change the object *)
+Theorem frame_history_len ops : forall f, tsize_fresh f ->
+  let f' := fold_left frame_apply ops f in
+  tsize_fresh f' /\
+  (forall ft, frame_consistent f' -> ft = None \/ ft = Some (ftype_of_rule (rules (ftfdf f'))) ->
+     exists raw, frame_pack f' (hdr_truncated (hdr f')) ft = Ok raw /\ len raw = frame_len_of f').
+Proof.
+  induction ops as [|o ops IH]; intros f Hf; cbn [fold_left].
+  - split; [assumption|]. intros ft Hc Hft. apply frame_len_is_pack_len; assumption.
+  - apply IH. apply frame_apply_fresh. assumption.
+Qed.
+
+Theorem frame_observers_pure f : frame_apply f OpPack = f /\ frame_apply f OpLen = f.
+Proof. split; reflexivity. Qed.
+
+(* the constructor and the decoder both establish the invariant *)
+Theorem tfdf_new_fresh r i dz fh t : tfdf_new r i dz fh = Ok t ->
+  tsize t = tfdf_header_len (fhp t) + len (tfdz t).
+Proof.
+  unfold tfdf_new, tfdf_set_tfdz. cbn [rules ident fhp tfdz tsize].
+  destruct (_ >? _); [discriminate|]. intros E. injection E as <-. reflexivity.
+Qed.
+
+(* set_frame_len_in_header after a tfdz change: the field again holds the packed size - 1 *)
+Theorem frame_set_tfdz_then_len f d :
+  let f' := set_frame_len_in_header (frame_set_tfdz f d) in
+  frame_len_set f' /\ tsize_fresh f' /\ tfdz (ftfdf f') = d.
+Proof.
+  cbn zeta. pose proof (set_frame_len_spec (frame_set_tfdz f d)) as (_ & S & T & _).
+  split; [exact S|]. unfold tsize_fresh. rewrite T. split; reflexivity.
+Qed.
